@@ -7,14 +7,14 @@
 use ascent::aggregators::*;
 
 /// a malformed case is an error of the tie, never a result: the driver stops (lib.ds_run then reports the missing lines)
-fn harness_error(msg: &str) -> ! {
+pub(crate) fn harness_error(msg: &str) -> ! {
    eprintln!("ds_driver agg: harness error: {}", msg);
    std::process::exit(3)
 }
-fn vals<T: std::str::FromStr>(toks: &[&str]) -> Vec<T> where T::Err: std::fmt::Debug {
+pub(crate) fn vals<T: std::str::FromStr>(toks: &[&str]) -> Vec<T> where T::Err: std::fmt::Debug {
    toks.iter().map(|t| t.parse().unwrap_or_else(|e| harness_error(&format!("value {} does not parse into the column type: {:?}", t, e)))).collect()
 }
-fn show<T: std::fmt::Display>(it: impl Iterator<Item = T>) -> String {
+pub(crate) fn show<T: std::fmt::Display>(it: impl Iterator<Item = T>) -> String {
    let v: Vec<String> = it.map(|x| x.to_string()).collect();
    format!("ok {}", v.join(" "))
 }
